@@ -22,7 +22,7 @@ ROOT = os.path.dirname(os.path.dirname(os.path.dirname(os.path.abspath(__file__)
 
 def sizes(ctx):
     if ctx.quick:
-        return dict(core=260, excon=110, nola=30, wide=24, retry=90, flags=50, fusion=70, altsplice=400, circ=0)
+        return dict(core=260, excon=110, nola=30, wide=24, retry=90, flags=50, fusion=70, altsplice=400, circ=250)
     return dict(core=15000, excon=6000, nola=800, wide=800, retry=3000, flags=3000, fusion=3000, altsplice=4000, circ=3000)
 
 def limited(rng, base):
@@ -261,11 +261,11 @@ def run(ctx):
                        'out_peptides': stats['out_peptides']},
                 known_finding_counts=dict(cnt), engine_tied_by='correspondence', stream_wall_s=stream_wall,
                 violations=keep,
-                assumptions=['records are SNV / MNV / INDEL on linear transcripts, fusions with exonic breakpoints, alternative-splicing <DEL>/<INS>/<SUB> records (stream altsplice); circRNA records, fusion with intronic breakpoints and AS combined with fusion are not generated: property partial for them',
+                assumptions=['records are SNV / MNV / INDEL on linear transcripts, fusions with exonic breakpoints, alternative-splicing <DEL>/<INS>/<SUB> records (stream altsplice) and circRNA records (stream circ); fusion with intronic breakpoints and AS combined with fusion / circRNA are not generated: property partial for them',
                              'timeouts are forced inside the worker process (monkeypatched call_variant_peptides_wrapper), real SIGALRM timeouts are not exercised',
                              'gene -> transcript coordinates by the generator\'s ground truth; mass thresholds off the 1e-4 grid',
                              '<= 7 records per cluster'],
-                trusted_base=['glue coq/Extract/Api_Spec.v, Api_SpecAS.v', 'case generators harness/lib/cvgen.py, cvgen2.py (gene -> transcript / donor / fragment coordinates by ground truth) and signature predicates harness/lib/cvsig.py, cvsig2.py'])
+                trusted_base=['glue coq/Extract/Api_Spec.v, Api_SpecAS.v, Api_SpecCirc.v', 'case generators harness/lib/cvgen.py, cvgen2.py (gene -> transcript / donor / fragment coordinates by ground truth) and signature predicates harness/lib/cvsig.py, cvsig2.py'])
 
 def replay(ctx, obj):
     c = obj['case']
